@@ -257,6 +257,19 @@ def rerun(path):
     """./check <id> --replay <file>: re-run a stored counterexample."""
     rec = json.load(open(path))
     rp = rec.get("replay")
+    if not rp and rec.get("why") == "bounded" and str(rec.get("function", "")).startswith("bounded."):
+        # a violation found by a bounded stand-in: the stored input is one element of the stand-in's finite domain; re-run
+        # the stand-in on the current tree ($VERIF_REPO) and report whether the same failure is still there
+        import importlib
+        import os
+        mod = importlib.import_module(rec["function"])
+        res = mod.run(rec.get("property"), os.environ.get("VERIF_TIER", "quick"), int(os.environ.get("VERIF_SEED", "0") or 0))
+        same = [v for v in res.get("violations", []) if v.get("what") == rec.get("what")]
+        exact = [v for v in same if v.get("input") == rec.get("input")]
+        print("stored failing input:", json.dumps(rec.get("input"), indent=1)[:3000])
+        print("re-ran %s: %d violation(s), %d with the same description, %d with exactly the stored input" % (
+            rec["function"], len(res.get("violations", [])), len(same), len(exact)))
+        return 1 if same else 0
     if not rp:
         print("no concrete input stored in %s (obligation %s): nothing to replay" % (path, rec.get("obligation")))
         print(json.dumps(rec.get("solver_output"), indent=1)[:3000])
